@@ -35,7 +35,7 @@ RULE = ('plan = 2-4 objects of random types with names / groups / '
 PROBES = ['modify_ok', 'delete_ok', 'set_ok', 'rejected', 'protected_attempt',
           'index_out_of_range', 'negative_index', 'delete_all_by_reference',
           'restart', 'non_owner_attempt', 'falsy_single_valued_set',
-          'unknown_attribute_name', 'attr_batch',
+          'unknown_attribute_name', 'attr_batch', 'read_inside_attr_batch',
           'attr_batch_continued_after_failure']
 REAL_VS_STUB = {
     'real': ['KmipEngine attribute handlers and setters',
@@ -262,6 +262,15 @@ def generate(rng, tier, index):
                                      ['ns%d' % j, 'data%d' % j], j))
         labels.append((op['label'], i, op))
         steps.append({'actor': 0, 'ver': list(ver), 'items': [op]})
+    # an Active wrapping key, for reads with a key wrapping specification
+    # inside attribute batches (a read must leave nothing behind for the
+    # commit of a later attribute operation to pick up)
+    steps.append({'actor': 0, 'ver': [1, 2], 'items': [{
+        'op': 'Register', 'label': 'wk', 'otype': 'SymmetricKey',
+        'attrs': [gen.A('Cryptographic Usage Mask', 0x30)],
+        'obj': {'kft': 1, 'value': '5a' * 16, 'alg': 3, 'len': 128}}]})
+    steps.append({'actor': 0, 'ver': [1, 2], 'items': [
+        {'op': 'Activate', 'uid': '@wk'}]})
     for _ in range(r.randint(6, 20)):
         x = r.random()
         lab, li, cop = r.choice(labels)
@@ -296,6 +305,22 @@ def generate(rng, tier, index):
                         nv['i'] = r.choice([0, 1, 1, 2])
                         o['attr'] = nv
                 items.append(o)
+            if r.random() < 0.3:
+                # a read among them: Get, plain or with a key wrapping
+                # specification, GetAttributes
+                lab2 = r.choice(labels)[0]
+                rd = r.choice([
+                    {'op': 'Get', 'uid': '@' + lab2, 'wrapspec': {
+                        'method': 1, 'enc': {'uid': '@wk',
+                                             'cp': {'mode': 0xD}},
+                        'encoding': 1}},
+                    {'op': 'Get', 'uid': '@' + lab2, 'wrapspec': {
+                        'method': 1, 'enc': {'uid': '@wk',
+                                             'cp': {'mode': 0xD}},
+                        'encoding': 1}},
+                    {'op': 'Get', 'uid': '@' + lab2},
+                    {'op': 'GetAttributes', 'uid': '@' + lab2}])
+                items.insert(r.randrange(len(items)), rd)
             steps.append({'actor': actor, 'ver': list(ver), 'items': items,
                           'cont': r.choice([1, 1, 1, 2, None]),
                           'attr_batch': True})
@@ -415,6 +440,9 @@ def run_attr_batch(W, st, probes, flag, ok_on, rej_on):
             rej_on.add(uid)
             probes['rejected'] += 1
             continue
+        if op['op'] in ('Get', 'GetAttributes'):
+            probes['read_inside_attr_batch'] += 1
+            continue            # a read contributes nothing to the store
         ok_on.add(uid)
         if st['actor'] != 0:
             flag('non-owner-changed-attribute', op=op['op'], attr=aname)
